@@ -974,6 +974,30 @@ class SymBytes:
             return False
         return bool(self[len(self.e) - len(p):] == p)
 
+    # bytearray-like mutation (a wrapper may keep its receive buffer as a mutable sequence)
+    def __delitem__(self, i):
+        if isinstance(i, slice):
+            i = slice(_cidx(i.start), _cidx(i.stop), _cidx(i.step))
+        else:
+            i = _cidx(i)
+        del self.e[i]
+
+    def __setitem__(self, i, v):
+        if isinstance(i, slice):
+            i = slice(_cidx(i.start), _cidx(i.stop), _cidx(i.step))
+            self.e[i] = list(v)
+        else:
+            self.e[_cidx(i)] = v
+
+    def extend(self, o):
+        self.e.extend(list(o))
+
+    def append(self, v):
+        self.e.append(v)
+
+    def clear(self):
+        del self.e[:]
+
     def find(self, sub, start=0, end=None):
         n = len(self.e)
         start = _cidx(start) or 0
